@@ -518,6 +518,16 @@ func (m *Machine) fsIntrinsic(name string, args []Val) (Val, bool) {
 		}
 		f.closed = true
 		return nil, true
+	case "(*os.File).Sync":
+		f, _ := args[0].(*fileObj)
+		if f == nil {
+			return m.fsSentinel("ErrInvalid"), true
+		}
+		m.step(false, "sync "+fileClass(f.name))
+		if f.closed {
+			return mkErr("closed", "sync "+f.name+": file already closed"), true
+		}
+		return nil, true // no power loss in the model: nothing to do
 	case "(*os.File).Name":
 		return mkStr(args[0].(*fileObj).name), true
 	case "(*os.File).Stat":
